@@ -109,3 +109,62 @@ pub fn mutate_corpus(d: &mut Dec, corpus: &[String]) -> String {
     }
     s
 }
+
+
+// ---------------------------------------------------------------- unwinding
+//
+// N unclosed (or half-closed) nestings followed by the start of another item:
+// the parser unwinds N levels of error recovery without consuming input and then
+// has to recognise the item. Enumerated over N because defects of this kind
+// (lookahead budgets, recovery sets) sit at one exact depth.
+
+const UNWIND_PREFIX: &[&str] = &[
+    "fn n",
+    "fn main() { let x = ",
+    "fn g(v: ",
+    "fn main() { match v { ",
+    "extern \"go\" \"time\" unix(secs: ",
+    "struct S { a: ",
+    "impl S { fn m(self: S) -> int32 { ",
+];
+const UNWIND_OPEN: &[&str] = &[
+    "(", "[", "{ ", "f(", "(1, ", "[1, ", "S { a: ", "Vec[", "if true { ", "match x { _ => ", "|| ", "-", "x.f(", "(\"",
+];
+const UNWIND_FOLLOW: &[&str] = &[
+    "\nextern \"go\" \"time\" now() -> int64\n",
+    "\nextern type T\n",
+    "\nfn g() { () }\n",
+    "\nstruct P { a: int32 }\n",
+    "\nenum E { A }\n",
+    "\ntrait T { fn m(Self) -> int32; }\n",
+    "\nimpl P { fn m(self: P) -> int32 { 1 } }\n",
+    "\n#[derive(ToString)]\nstruct Q { a: int32 }\n",
+    "\npackage X\n",
+    "\nimport Y\n",
+    " }\n",
+    ")",
+    "",
+];
+pub const UNWIND_MAX_DEPTH: u64 = 300;
+
+pub fn unwind_count() -> u64 {
+    UNWIND_MAX_DEPTH * (UNWIND_PREFIX.len() * UNWIND_OPEN.len() * UNWIND_FOLLOW.len()) as u64
+}
+
+pub fn unwind_text(index: u64) -> String {
+    let mut i = index % unwind_count();
+    let n = 1 + i % UNWIND_MAX_DEPTH;
+    i /= UNWIND_MAX_DEPTH;
+    let o = UNWIND_OPEN[(i % UNWIND_OPEN.len() as u64) as usize];
+    i /= UNWIND_OPEN.len() as u64;
+    let p = UNWIND_PREFIX[(i % UNWIND_PREFIX.len() as u64) as usize];
+    i /= UNWIND_PREFIX.len() as u64;
+    let f = UNWIND_FOLLOW[(i % UNWIND_FOLLOW.len() as u64) as usize];
+    let mut t = String::with_capacity(p.len() + o.len() * n as usize + f.len() + 8);
+    t.push_str(p);
+    for _ in 0..n {
+        t.push_str(o);
+    }
+    t.push_str(f);
+    t
+}
